@@ -418,6 +418,23 @@ Definition mstep (s : mstate) (o : op) : mstate * out :=
       | Some a, Some b => (s, OBool (kv_same a b))
       | _, _ => (s, OUnit)
       end
+  | IterNewAt kind slot acc k =>
+      if kind_ok kind then
+        (m_with_iter s slot (mk_miter kind (okey (m_access acc k t)) None (m_ver s)), OUnit)
+      else (s, OUnit)
+  | ForeachPut i k v =>
+      let es := inorder t in
+      if (0 <=? i) && (i <? Z.of_nat (length es)) then
+        let n := S (Z.to_nat i) in
+        match lookup k t with
+        | Some _ =>
+            let t' := put k v t in
+            (mk_mstate t' (m_size s) (m_ver s) (m_its s), OEntsP (firstn n es ++ skipn n (inorder t')) false)
+        | None =>
+            (mk_mstate (put k v t) (match t with E => 1 | _ => m_size s + 1 end) (m_ver s + 1) (m_its s),
+             OEntsP (firstn n es) true)
+        end
+      else (s, OEntsP es false)
   | IterSetValue slot v =>
       match m_its s slot with
       | Some it =>
